@@ -194,7 +194,8 @@ def case_null_space(m, n, timeout=60.0):
             ok_type = isinstance(res, np.ndarray) and res.ndim == 2 and res.shape == (len(free), n) and res.dtype == np.int8
             cl = [("typed_shape", ok_type), ("count", isinstance(res, np.ndarray) and res.shape[0] == len(free))]
             if ok_type:
-                cl.append(("in_kernel", not ((A @ res.T.astype(np.int64)) % 2).any()))
+                inker = not ((A @ res.T.astype(np.int64)) % 2).any()
+                cl += [(f"in_kernel.row{i}", inker) for i in range(n + 2)]
                 cl.append(("echelon", all(res[t, f] == (1 if f == free[t] else 0) for t in range(len(free)) for f in free)))
             return cl
         Bm, piv = holder["B"], holder["piv"]
@@ -205,7 +206,8 @@ def case_null_space(m, n, timeout=60.0):
             if isinstance(val, GArr):
                 # real numpy: a non-empty list of int8 vectors -> (k, n) int8; an empty list -> float64 array of shape (0,)
                 typed.append(X.Implies(gd, X.And(X.Not(val.empty_guard()), val.decl == np.int8, val.cols == n)))
-                count.append(X.Implies(gd, S.bexpr(L.EQ(val.nrows(), nfree))))
+                # number of present rows + number of pivots = n, as a one-hot count over (row guards + pivot indicators)
+                count.append(X.Implies(gd, L.count_is([rg for rg, _ in val.rows] + list(p), n)))
                 rows = val.rows
             elif isinstance(val, np.ndarray):
                 okt = val.ndim == 2 and val.shape[1] == n and S.decl_of(val) == np.int8
@@ -230,7 +232,10 @@ def case_null_space(m, n, timeout=60.0):
                             ech.append(X.Implies(X.And(g2, X.Not(p[f])), X.Not(L.bit(vec[f]))))
             elif rows:
                 ech.append(False)
-        return [("typed_shape", X.And(*typed)), ("count", X.And(*count)), ("in_kernel", X.And(*kern)), ("echelon", X.And(*ech))]
+        cl = [("typed_shape", X.And(*typed)), ("count", X.And(*count))]
+        cl += [(f"in_kernel.row{i}", e) for i, e in enumerate(kern)]
+        cl.append(("echelon", X.And(*ech)))
+        return cl
 
     def replay_args(model, args, kwargs):
         # a matrix already in reduced row echelon form is its own RREF (M3), so the callee state of the model is
@@ -370,6 +375,13 @@ def L_len(v):
     return v.length() if isinstance(v, GList) else len(v)
 
 
+def _len_is(lst, k):
+    """len(lst) == k as a pure boolean formula (one-hot count of the presence guards)"""
+    if isinstance(lst, GList):
+        return L.count_is([g for g, _ in lst.slots], k)
+    return len(lst) == k
+
+
 def rref_cut_preserve(m, n, h, k, timeout=120.0):
     """Inv(A, piv, h, k) and loop condition  ==>  after one execution of the real loop body: Inv(A', piv', h', k'),
     k' = k+1, h' in {h, h+1}, no exception, entries stay bits."""
@@ -381,14 +393,16 @@ def rref_cut_preserve(m, n, h, k, timeout=120.0):
         A, piv = _loop_env(m, n, h, k)
         it = I.Interp(loop_bound=m + 2)
         inv = L.rref_form(A, piv, upto=k)
-        it.hyps += [S.bexpr(inv), S.bexpr(L.EQ(piv.length(), h))]
+        it.hyps += [S.bexpr(inv), _len_is(piv, h)]
         A_pre = A.copy()
         env, flow, cond, _ = it.run_loop_body(f2.rref, 0, {"A": A, "m": m, "n": n, "pivot_cols": piv, "h": h, "k": k})
         if cond is not True:
             return [_rec(name, "unknown", "pyvc", time.time() - t0, "loop condition not concretely true at a reachable (h,k)")], {}
         hp, kp = env["h"], env["k"]
-        goal = L.AND(L.EQ(kp, k + 1), L.OR(L.EQ(hp, h), L.EQ(hp, h + 1)), hp <= m if not isinstance(hp, int) else hp <= m,
-                     L.EQ(L_len(env["pivot_cols"]), hp), L.rref_form(env["A"], env["pivot_cols"], upto=k + 1),
+        hp_is_h, hp_is_h1 = L.B(L.EQ(hp, h)), L.B(L.EQ(hp, h + 1))
+        goal = L.AND(L.EQ(kp, k + 1), L.OR(hp_is_h, hp_is_h1), hp <= m if not isinstance(hp, int) else hp <= m,
+                     X.Implies(hp_is_h, _len_is(env["pivot_cols"], h)), X.Implies(hp_is_h1, _len_is(env["pivot_cols"], h + 1)),
+                     L.rref_form(env["A"], env["pivot_cols"], upto=k + 1),
                      L.NOT(flow.exc), L.NOT(flow.ret), L.is_bit_matrix(env["A"]), flow.normal,
                      not flow.brk and not flow.cnt, env["A"] is A, not it.side or all(g is True for _, g in it.side))
         v = X.prove(it.hyps, S.bexpr(goal), timeout_s=timeout)
@@ -412,7 +426,7 @@ def rref_cut_exit(m, n, timeout=120.0):
             continue
         X.reset()
         A, piv = _loop_env(m, n, h, k)
-        hyps = [S.bexpr(L.rref_form(A, piv, upto=k)), S.bexpr(L.EQ(piv.length(), h))]
+        hyps = [S.bexpr(L.rref_form(A, piv, upto=k)), _len_is(piv, h)]
         v = X.prove(hyps, S.bexpr(L.rref_form(A, piv)), timeout_s=timeout)
         recs.append(_rec(f"rref.cut[{m}x{n}]:exit[h={h},k={k}]", v.status, v.backend, v.time, v.info))
     return recs, {"t": round(time.time() - t0, 3)}
